@@ -29,6 +29,9 @@ def field(t, name):
     raise KeyError(name)
 
 
+HYPS = dict(seen=0, lits_nodup=0, sub_lits_nonempty=0)
+
+
 def row_ids(dfa_sx):
     """state ids of the rows of a (dfa ...) in row order = the order in which Rust popped the states"""
     return [row[0] for row in field(dfa_sx, 'trans')[1:]]
@@ -61,6 +64,13 @@ def oracles(st, script, command):
         groups = shape_groups(script, command)
         first = script.split('\n', 1)[0]
         sig = first[2:] if first.startswith('# ') else first
+    # the decidable side conditions of the source-level corollaries (Props/Capstone.v), evaluated on Rust's oracles
+    pairs = lambda l: [(str(x[0]), str(x[1])) for x in l]
+    HYPS['seen'] += 1
+    if len(set(pairs(om))) == len(om) and all(len(set(pairs(e[1:]))) == len(e) - 1 for e in osub):
+        HYPS['lits_nodup'] += 1
+    if all(str(x[0]) != '' for e in osub for x in e[1:]):
+        HYPS['sub_lits_nonempty'] += 1
     return '(oracles (pops %s) (fuel %d) (mainlits %s) (sublits %s) (groups %s) (sig %s))' % (
         ' '.join('(%s)' % ' '.join(p) for p in pops), FUEL,
         ' '.join(sexp.dump(x) for x in om), ' '.join(sexp.dump(x) for x in osub),
@@ -202,6 +212,7 @@ def tie(ctx, res, texts, label='end_to_end_bash', binary_max=None):
             res.violations.append(report.Violation('proof obligations of C04c (compile_bash: totality / embedding) no longer check',
                                                    dict(kind='proof-obligation', property='C04c', errors=extra['errors']), found_input=False))
         res.extra['theorems_C04c'] = extra['theorems']
+    res.extra['capstone_side_conditions_on_rust_oracles'] = dict(HYPS)
     res.extra[label] = dict(texts=len(texts), scripts_byte_identical=agree['script'], of_which_against_the_binary=agree['binary'], with_within_word_automata=with_words,
                             rejections_agree=agree['reject'], oracle_conflicts=agree['conflict'],
                             seconds=round(time.time() - t0, 1), harness_s=round(t_dump, 1), binary_s=round(t_bin, 1), model_s=round(t_model, 1))
